@@ -72,15 +72,15 @@ def make_channel(inst, E, D):
     return LambdaChannel(fn)
 
 
-def displacements(rng, nrows, nsym, lo, scale, frac):
-    """integer offsets (table units) of squared length < frac^2 * lo / 4, random directions"""
+def displacements(rng, nrows, nsym, lo, scale, frac, sweep=False):
+    """integer offsets (table units) of squared length < frac^2 * lo / 4, random directions (sweep: full length, directions swept over the circle)"""
     r = frac * math.sqrt(lo) / 2
     rows = []
-    for _ in range(nrows):
+    for ri in range(nrows):
         row = []
-        for _ in range(nsym):
-            th = rng.uniform(0, 2 * math.pi)
-            q = rng.uniform(0.6, 1.0) * r
+        for si in range(nsym):
+            th = rng.uniform(0, 2 * math.pi) if not sweep else 2 * math.pi * ((si * nrows + ri) * 0.381966 % 1.0)
+            q = (rng.uniform(0.6, 1.0) if not sweep else 1.0) * r
             row.append((int(q * math.cos(th)), int(q * math.sin(th))))
         rows.append(row)
     return rows
@@ -148,6 +148,7 @@ def corr(ctx):
                         Erows = [[1 if i == min(p0 + r_, n - 1) else 0 for i in range(nb * n)] for r_ in range(B)]
                         scenarios.append(("single_flip", Erows, None))
             scenarios.append(("displaced", None, displacements(rng, B, nsym, lo, S, 0.9)))
+            scenarios.append(("displaced_0.98", None, displacements(rng, B, nsym, lo, S, 0.98, sweep=True)))
             if t > 0:
                 Erows = []
                 for _r in range(B):
@@ -180,6 +181,29 @@ def corr(ctx):
                     else:
                         ops.append(Op("gray 0", "0", nontrivial=False, info={"site": site, "config": dict(c_, got=rows[r_])}, prop_ok=ok))
                 ctx.count("hard_%s_%s" % (kind, sname), B)
+    # ---------------- a modulation with memory in the chain: pi/4-QPSK (binary labelling), several calls on ONE model object,
+    # in the default (training) mode where the alternation state is carried from call to call, and in evaluation mode after a reset
+    from kaira.modulations import pi4qpsk
+    from kaira.channels import PerfectChannel
+    ham = E_.HammingCodeEncoder(3)
+    for mode in ("train", "eval"):
+        mod, dem = pi4qpsk.Pi4QPSKModulator(gray_coded=False), pi4qpsk.Pi4QPSKDemodulator()
+        model = ChannelCodeModel(ham, IdentityConstraint(), mod, PerfectChannel(), dem, D_.SyndromeLookupDecoder(ham))
+        model.train(mode == "train")
+        hist = []
+        for call, nblk in enumerate((2, 2, 4, 6, 2, 2)):        # 2 / 6 blocks = 7 / 21 symbols per row (odd), 4 blocks = 14 (even)
+            if mode == "eval":
+                mod.reset_state(); dem.reset_state()
+            msgs = [[rng.getrandbits(1) for _ in range(4 * nblk)] for _ in range(2)]
+            try:
+                out = model(torch.tensor(msgs, dtype=torch.float32))
+                got = [bstr(r) for r in out.reshape(2, -1).tolist()]
+            except Exception as e:
+                got = ["other:%s" % type(e).__name__]
+            hist.append(nblk)
+            ops.append(Op("gray 0", "0", nontrivial=False, info={"site": "models:ChannelCodeModel.memory", "config": {"modulation": "pi/4-QPSK (binary labels)", "mode": mode, "blocks_per_row_history": list(hist), "sent": [bstr(m) for m in msgs], "got": got}},
+                          prop_ok=(got == [bstr(m) for m in msgs])))
+        ctx.count("memory_chain")
     # ---------------- soft chains: soft demodulator output into soft-input decoders (ideal / displaced symbols)
     soft_cases = []
     spc = E_.SingleParityCheckCodeEncoder(5)
@@ -230,7 +254,9 @@ def search(ctx, mismatches, broken, prop_fail):
         if site is None or key in seen:
             continue
         seen.add(key)
-        if site.endswith(".soft"):
+        if site.endswith(".memory"):
+            what = "Hamming(7,4) + syndrome decoder over pi/4-QPSK, %s mode, calls with %s blocks per row on one model object: sent %s, received %s" % (cfg.get("mode"), cfg.get("blocks_per_row_history"), cfg.get("sent"), cfg.get("got"))
+        elif site.endswith(".soft"):
             what = "soft chain %s over %s (%s channel, noise_var %s): sent %s, received %s" % (cfg.get("chain"), cfg.get("table"), cfg.get("scenario"), cfg.get("noise_var"), cfg.get("sent"), cfg.get("got"))
         elif pf in prop_fail:
             what = "%s + %s decoder over %s, %s channel (t = %s, %s block(s)): message %s comes back as %s" % (cfg.get("code"), cfg.get("decoder"), cfg.get("table"), cfg.get("scenario"), cfg.get("t"), cfg.get("blocks"), cfg.get("sent"), cfg.get("got", pf["impl"]))
